@@ -34,10 +34,11 @@ structure St where
   slots : List Slot        -- live iterators
   epoch : Nat              -- number of mutating ops so far
   taint : List Nat         -- hosts with non-commuting concurrent calls whose outcome no sequential add/remove has settled
-  injSess : Bool           -- a `repl` line installed a table for the session keyspace (hook, not the code's path)
+  inj : List Nat           -- keyspaces whose CURRENT table was installed by a `repl` line (hook, not the code's path)
+                           -- and has not been recomputed by the policy since
   pending : Option Pending
 
-def init : St := ⟨false, TA.new (Pol.new .rr 0 0) false false false, [], [], [], false, [], 0, [], false, none⟩
+def init : St := ⟨false, TA.new (Pol.new .rr 0 0) false false false, [], [], [], false, [], 0, [], [], none⟩
 
 def nat (s : String) : Nat := s.toNat?.getD 0
 def natList (s : String) : List Nat := if s == "-" then [] else (s.splitOn ",").map nat
@@ -69,20 +70,21 @@ def belowB (p : Pol) : Bool := p.layers.all (fun l => decide (p.ctr + 1 + l.leng
 def belowM (p : Pol) (m : Nat) : Bool := p.layers.all (fun l => decide (p.ctr + m + l.length < 9223372036854775808))
 
 /-- the replica list of a query (after shuffling) and whether it is guaranteed FRESH: it comes from the token
-ring (rebuilt on every change of the policy's host list) or from the table of the SESSION keyspace (recomputed
-on every such change) — and no hook line has installed a table for the session keyspace -/
+ring (rebuilt on every change of the policy's host list) or from a table the policy computed itself (after the
+repair of KF-C10-4 EVERY held table is recomputed on every such change) — i.e. not from a table a hook line
+installed and the policy has not recomputed since -/
 def St.repsOf (s : St) (σ : List Host → List Host) (rk : Option (Nat × Nat)) : List Host × Bool :=
   match rk with
   | none => ([], true)
   | some (ks, tok) => match s.t.replicasFor ks tok with
-    | .hosts l ft => (if ft && s.t.shuffle then σ l else l, !ft || (s.t.sessKs == some ks && !s.injSess))
+    | .hosts l ft => (if ft && s.t.shuffle then σ l else l, !ft || !s.inj.contains ks)
     | _ => ([], true)
 
 /-- the excluded conditions of `C11_history_exact_partial` (+ its assumptions), decided on the model state:
 alias, counter region of KF-C11-3, a ghost host (KF-C11-4), a replica table with a duplicate, a host with
-unsettled non-commuting concurrent calls, a stale replica in the specified head (KF-C11-5: a replica the
-last call about which was `HostDown` while its state is up; a replica that is not known in a list that is
-not guaranteed fresh, i.e. the table of a keyspace other than the session's) -/
+unsettled non-commuting concurrent calls, a stale replica in the specified head (KF-C11-5, case (b): a replica
+the last call about which was `HostDown` while its state is up), a replica that is not known in a table that
+was installed through the hook (an assumption on the installed table, not a finding) -/
 def St.offerExcluded (s : St) (reps : List Host) (fresh : Bool) : Bool :=
   s.alias || s.hot || !belowB s.t.pol ||
   s.hosts.any (fun h => (s.status h).ghost) ||
@@ -122,7 +124,8 @@ def St.call (s : St) (op : String) (h : Host) : St :=
     else if op == "hup" then s.t.hostUp h
     else if op == "hdown" then s.t.hostDown h
     else s.t
-  { s with t := t', evs := match evOf op with | some e => (e, h) :: s.evs | none => s.evs }
+  { s with t := t', evs := (match evOf op with | some e => (e, h) :: s.evs | none => s.evs),
+           inj := if s.isTA && t'.hosts.map (·.id) != s.t.hosts.map (·.id) then [] else s.inj }
 
 def showTable (tab : List (Nat × List Host)) : String :=
   if tab.isEmpty then "empty" else " ".intercalate (tab.map (fun e => toString e.1 ++ ":" ++ showIds e.2))
@@ -188,7 +191,8 @@ def step (s : St) (ws : List String) : St × String :=
   | ["ksmeta", ks, v] =>
     let m : Option (Option Nat) := if v == "none" then none else if v == "local" then some none else some (some (nat v))
     (bump { s with t := s.t.setMeta (nat ks) m }, "ok")
-  | ["kschg", ks] => (bump { s with t := if s.isTA then s.t.keyspaceChanged (nat ks) else s.t }, "ok")
+  | ["kschg", ks] =>
+    (bump { s with t := if s.isTA then s.t.keyspaceChanged (nat ks) else s.t, inj := s.inj.filter (· != nat ks) }, "ok")
   | ["table", ks] =>
     (s, if !s.isTA || !s.t.partSet then "none" else
       match s.t.replicas.find? (fun e => e.1 == nat ks) with
@@ -248,7 +252,8 @@ def step (s : St) (ws : List String) : St × String :=
                                   hosts := if s.isTA then hs "T" else s.t.hosts }
         let t2 := if s.isTA && pd.changedT then t1.refresh else t1
         let newTaint := (pd.calls.map (·.2)).filter (fun i => confF i || confT i)
-        (bump { s with t := t2, pending := none, taint := newTaint ++ s.taint.filter (fun i => !newTaint.contains i) }, "ok")
+        (bump { s with t := t2, pending := none, taint := newTaint ++ s.taint.filter (fun i => !newTaint.contains i),
+                       inj := if s.isTA && pd.changedT then [] else s.inj }, "ok")
   | [op, id] =>
     match s.host? (nat id) with
     | none => (s, "bad-op")
@@ -262,7 +267,7 @@ def step (s : St) (ws : List String) : St × String :=
     ({ s with down := if v == "1" then s.down.filter (· != nat id) else nat id :: s.down.filter (· != nat id), slots := [] }, "ok")
   | "repl" :: ks :: tab =>
     let t' : TA := if s.t.partSet then s.t.setReplicas (nat ks) (parseTable s tab) else s.t
-    (bump { s with t := t', injSess := s.injSess || (s.t.partSet && s.t.sessKs == some (nat ks)) }, "ok")
+    (bump { s with t := t', inj := if s.t.partSet then nat ks :: s.inj.filter (· != nat ks) else s.inj }, "ok")
   | ["pick", ks, tok, limit, perms] =>
     let (t', r) := s.t.pick s.up (applyPerm (parsePerms perms)) (parseRk ks tok) (nat limit)
     ({ s with t := t' }, match r with
